@@ -145,6 +145,16 @@ func VerifHarness_C19_assign() {
 	if p.state[o] == 0 {
 		verifAssert("explicit/free-address-accepted", err == nil)
 		verifAssert("explicit/now-owned-by-caller", verifHandleOf(b, o) == h)
+		// the other free addresses keep their order (longest-free first is the free-list order)
+		k := 0
+		for _, u := range p.unalloc {
+			if u == o {
+				continue
+			}
+			verifAssert("explicit/free-list-order-kept", k < len(b.Unallocated) && b.Unallocated[k] == u)
+			k++
+		}
+		verifAssert("explicit/free-list-order-kept", k == len(b.Unallocated))
 	} else {
 		verifAssert("explicit/allocated-address-refused", err != nil)
 		verifAssert("explicit/owner-unchanged", verifHandleOf(b, o) == verifHandles[p.state[o]-1])
@@ -241,6 +251,15 @@ func VerifHarness_C21_release() {
 		}
 	}
 	verifInvariant("release", b)
+	// a block that still records an allocated or cooling-down address is not empty (an empty
+	// block may be deleted, which would forget the cooldown)
+	inUse := false
+	for x := 0; x < 4; x++ {
+		if b.Allocations[x] != nil {
+			inUse = true
+		}
+	}
+	verifAssert("release/block-with-recorded-addresses-is-not-empty", b.empty() == !inUse)
 }
 
 // VerifHarness_C21_byhandle: releaseByHandle frees exactly that handle's addresses.
